@@ -10,6 +10,7 @@ import (
 	"strings"
 
 	"golang.org/x/tools/go/packages"
+	"golang.org/x/tools/go/ssa"
 )
 
 func init() { register("C04", checkC04) }
@@ -665,23 +666,7 @@ func c04FuncLookup(w *World, r *Report) {
 		r.Fail("R04.9", "CommonLex.LexName '(' branch", fd.Pos(), "branch on NextNonWhitespaceStringIs(\"(\") not found")
 	}
 	// LookupXpathFunction: returns (sym,true) only from the table or the user checker
-	lfd, lp := w.FuncDecl(lookup)
-	tbl := w.Var("xpath", "xpathFunctionTable")
-	reads := 0
-	ast.Inspect(lfd.Body, func(n ast.Node) bool {
-		if ix, ok := n.(*ast.IndexExpr); ok && objOfIdent(lp, ix.X) == tbl {
-			reads++
-		}
-		return true
-	})
-	lastRet := lfd.Body.List[len(lfd.Body.List)-1]
-	okLast := false
-	if rr, ok := lastRet.(*ast.ReturnStmt); ok && len(rr.Results) == 2 && isNilIdent(lp, rr.Results[0]) {
-		if v := ConstOf(lp, rr.Results[1]); v != nil && !constant.BoolVal(v) {
-			okLast = true
-		}
-	}
-	r.Check(reads == 1 && okLast, "R04.9", "LookupXpathFunction", lfd.Pos(), "one table read; default (nil,false)", "lookup does not consult the table exactly once or does not default to not-found")
+	c04LookupTable(w, r, lookup)
 	// leafref: only current
 	ffd, fp := w.FuncDecl(w.Method("xpath/grammars/leafref", "leafrefLex", "LexName"))
 	okCur := false
@@ -828,4 +813,126 @@ func c04ErrRune(w *World, r *Report) {
 			})
 		}
 	}
+}
+
+// c04LookupTable (R04.9): LookupXpathFunction read as a decision table.  An
+// exit answers "found" only with the table's own entry, exactly when the name
+// is in the table and (the entry is not custom or custom functions are
+// allowed); the checker's answer is handed on exactly when the name is not in
+// the table and a checker was given; every other exit answers (nil, false).
+func c04LookupTable(w *World, r *Report, lookup *types.Func) {
+	f := w.SSAFunc(lookup)
+	if f == nil || len(f.Params) != 3 {
+		panic(undecided{"xpath.LookupXpathFunction"})
+	}
+	tbl := w.Var("xpath", "xpathFunctionTable")
+	sym := NewSym(w)
+	var look *ssa.Lookup
+	for _, b := range f.Blocks {
+		for _, in := range b.Instrs {
+			if l, ok := in.(*ssa.Lookup); ok {
+				if ld, ok := l.X.(*ssa.UnOp); ok {
+					if g, ok := ld.X.(*ssa.Global); ok && g.Object() == types.Object(tbl) && l.Index == ssa.Value(f.Params[0]) {
+						if look != nil {
+							// a second read of the same entry is the same entry
+							continue
+						}
+						look = l
+					}
+				}
+			}
+		}
+	}
+	why := ""
+	if look == nil || !look.CommaOk {
+		why = "the table is not consulted with the name (comma-ok read)"
+	}
+	fromLookup := func(v ssa.Value, idx int) bool {
+		e, ok := v.(*ssa.Extract)
+		if !ok || e.Index != idx {
+			return false
+		}
+		l, ok := e.Tuple.(*ssa.Lookup)
+		if !ok {
+			return false
+		}
+		ld, ok := l.X.(*ssa.UnOp)
+		if !ok {
+			return false
+		}
+		g, ok := ld.X.(*ssa.Global)
+		return ok && g.Object() == types.Object(tbl) && l.Index == ssa.Value(f.Params[0])
+	}
+	classify := func(a *pcAtom) string {
+		if a.v != nil && fromLookup(a.v, 1) {
+			return "found"
+		}
+		if fl, ok := a.v.(*ssa.Field); ok && fromLookup(fl.X, 0) {
+			return "custom"
+		}
+		if ld, ok := a.v.(*ssa.UnOp); ok && ld.Op == token.MUL {
+			if fa, ok := ld.X.(*ssa.FieldAddr); ok && fromLookup(fa.X, 0) {
+				st := fa.X.Type().Underlying().(*types.Pointer).Elem().Underlying().(*types.Struct)
+				if st.Field(fa.Field).Name() == "custom" {
+					return "custom"
+				}
+			}
+		}
+		if a.v == ssa.Value(f.Params[1]) {
+			return "allowed"
+		}
+		if a.op == token.EQL && (a.x == ssa.Value(f.Params[2]) && isNilConst(a.y) || a.y == ssa.Value(f.Params[2]) && isNilConst(a.x)) {
+			return "nochecker"
+		}
+		return ""
+	}
+	nHit, nChk := 0, 0
+	if why == "" {
+		r0, r1 := sym.retTable(f, 0), sym.retTable(f, 1)
+		if len(r0) != len(r1) {
+			why = "results not decided"
+		}
+		for i := range r0 {
+			if why != "" {
+				break
+			}
+			v0, v1 := r0[i].val, r1[i].val
+			k1, isConst := v1.(*ssa.Const)
+			switch {
+			case isConst && k1.Value != nil && k1.Value.ExactString() == "true":
+				if !fromLookup(v0, 0) {
+					why = "an exit answers found with something other than the table's entry"
+					break
+				}
+				nHit++
+				if msg := pcCompare(r0[i].cond, classify, func(env map[string]bool) bool { return env["found"] && (!env["custom"] || env["allowed"]) }); msg != "" {
+					why = "the table's entry is not returned exactly when it exists and is visible: " + msg
+				}
+			case isConst:
+				if !isNilConst(v0) {
+					why = "an exit answers not-found with a symbol"
+				}
+			default:
+				// the checker's answer, handed on as it is
+				e0, ok0 := v0.(*ssa.Extract)
+				e1, ok1 := v1.(*ssa.Extract)
+				var call *ssa.Call
+				if ok0 && ok1 && e0.Tuple == e1.Tuple && e0.Index == 0 && e1.Index == 1 {
+					call, _ = e0.Tuple.(*ssa.Call)
+				}
+				if call == nil || call.Call.Value != ssa.Value(f.Params[2]) || len(call.Call.Args) != 1 || call.Call.Args[0] != ssa.Value(f.Params[0]) {
+					why = "an exit answers with something that is neither the table's entry, the checker's answer nor (nil,false)"
+					break
+				}
+				nChk++
+				if msg := pcCompare(r0[i].cond, classify, func(env map[string]bool) bool { return !env["found"] && !env["nochecker"] }); msg != "" {
+					why = "the checker is not asked exactly for names that are not in the table: " + msg
+				}
+			}
+		}
+		if why == "" && (nHit == 0 || nChk == 0) {
+			why = fmt.Sprintf("%d exits return the table's entry, %d the checker's answer", nHit, nChk)
+		}
+	}
+	r.Check(why == "", "R04.9", "LookupXpathFunction", f.Pos(), "found ⇔ in the table ∧ (¬custom ∨ allowed); else the checker, else (nil,false)", "the function lookup "+why)
 }
